@@ -451,6 +451,16 @@ PROPS["C05"] = {
     ],
 }
 
+def cmp_seq(rq, impl, model):
+    # the implementation answered one text differently on the session's thread and on a fresh thread:
+    # that history is itself the failing input (the property is about lace alone), whatever the model says
+    if " !fresh " in impl:
+        spec = " ## ".join(e.split(" !fresh ")[1] if " !fresh " in e else e for e in impl.split(" ## "))
+        return [{"kind": "impl-vs-spec", "request": rq, "impl": impl, "model": split_ms(model)[0], "spec": spec,
+                 "note": "spec = every text answered as on a fresh thread (lace's own answer there)"}]
+    return cmp_default(rq, impl, model)
+
+
 def seq_classify(rq, impl):
     parts = impl.split(" ## ")
     ok = sum(1 for p in parts if p.startswith("ok"))
@@ -469,7 +479,7 @@ PROPS["C19"] = {
         "Lace.C19.stale_table_matters",
         "Lace.C19.watch_session_eq_checks",
     ],
-    "compare": cmp_default,
+    "compare": cmp_seq,
     "classify": seq_classify,
     "nontrivial": lambda rq, impl: True,
     "group": lambda d: seq_classify(d["request"], d["impl"]),
@@ -478,7 +488,10 @@ PROPS["C19"] = {
              "after the other on ONE thread, with lace::reset_state() before each (4 of 5 histories) or without "
              "(1 of 5: exercises the model's symbol-table threading). Compared per element: the full assembler "
              "observation of C05 against the model's runSeq; with reset additionally, on the implementation, "
-             "against the same source assembled on a fresh thread (a difference is reported as `!fresh`)."),
+             "against the same source assembled on a fresh thread (a difference is reported as `!fresh` and is a "
+             "failing history by itself). `F19` requests: histories around tables of 20,000-65,000 labels, answered "
+             "on the implementation alone (this thread vs a fresh thread per element; the model's answer `same` is "
+             "theorem runSeq_reset_eq_map)."),
     "trusted": [
         "the theorem is modest (purity is by construction in a functional model); that lace has no state besides "
         "the symbol table is established by the correspondence check, not by proof",
@@ -1144,6 +1157,31 @@ def _cell_agrees(shown, expected_shown):
     return (b2.startswith(a2) if ca else a2.startswith(b2))
 
 
+def _disp_width(t):
+    import unicodedata
+    return sum(0 if unicodedata.combining(ch) else (2 if unicodedata.east_asian_width(ch) in "WF" else 1) for ch in t)
+
+
+def _cut_consistent(tabs):
+    """A table may cut a text that does not fit its column, by whatever measure of length it uses
+    (characters, display columns); it may not cut a text that fits.  Checked on the implementation's
+    own tables of one session, without assuming any width: no cut cell is shorter, by BOTH measures,
+    than a cell of the same column that is shown whole."""
+    for col in (1, 2):
+        cut, whole = [], []
+        for t in tabs:
+            rows = _table_rows(t) if t not in ("-", "panic") else None
+            for r in rows or []:
+                c = r[col].replace("\n", " ").strip()
+                if c.endswith("…"):
+                    cut.append(max(len(c), _disp_width(c)))
+                elif c:
+                    whole.append(min(len(c), _disp_width(c)))
+        if cut and whole and min(cut) < max(whole):
+            return False
+    return True
+
+
 def c17_compare(rq, impl, model):
     """B17: when the tables differ as text (box characters, widths, a heading row are the table's
     own business), they are compared cell by cell instead."""
@@ -1173,6 +1211,9 @@ def c17_compare(rq, impl, model):
         return True
 
     out = []
+    if not _cut_consistent(split_tabs(impl)[1]):
+        return [{"kind": "impl-vs-spec", "request": rq, "impl": impl, "model": m, "spec": s if s is not None else m,
+                 "note": "the table cuts a text although it shows a longer one whole in the same column"}]
     if s is not None and not same(m, s):
         out.append({"kind": "impl-vs-model", "request": rq, "impl": impl, "model": m, "spec": s,
                     "note": "driver: model and spec answers differ"})
